@@ -232,3 +232,70 @@ pub fn record(scratch: &Path) -> Value {
         "scenarios": Value::Object(out),
     })
 }
+
+/// `watch_tools stress-debouncer <scratch-dir> <seconds> <seed>`: hammers a recursively watched
+/// tree with folder/file renames, creations and removals to see whether the notify /
+/// notify-debouncer-full threads survive (their panic messages go to stderr). Diagnostic aid
+/// for the real leg of C20; not used by the check.
+pub fn stress(scratch: &Path, seconds: u64, seed: u64) {
+    let _ = fs::remove_dir_all(scratch);
+    let root = scratch.join("src");
+    fs::create_dir_all(&root).unwrap();
+    let root = root.canonicalize().unwrap();
+    let outside = scratch.join("outside");
+    fs::create_dir_all(&outside).unwrap();
+    let (tx, rx) = channel();
+    let mut deb = new_debouncer(Duration::from_millis(100), None, move |r: DebounceEventResult| {
+        let _ = tx.send(r.map(|v| v.len()).map_err(|e| e.len()));
+    })
+    .unwrap();
+    deb.watch(&root, RecursiveMode::Recursive).unwrap();
+    let mut x = seed.wrapping_mul(0x9E3779B97F4A7C15) | 1;
+    let mut rnd = move |n: u64| {
+        x ^= x << 13;
+        x ^= x >> 7;
+        x ^= x << 17;
+        x % n
+    };
+    let names = ["a", "ab", "a/b", "lib", "lib/deep", "moved", "ab2"];
+    let t0 = std::time::Instant::now();
+    let mut ops = 0u64;
+    let mut batches = 0u64;
+    while t0.elapsed().as_secs() < seconds {
+        let d = root.join(names[rnd(names.len() as u64) as usize]);
+        match rnd(7) {
+            0 => {
+                let _ = fs::create_dir_all(&d);
+                let _ = fs::write(d.join(format!("f{}.ts", rnd(3))), "x");
+            }
+            1 => {
+                let t = root.join(names[rnd(names.len() as u64) as usize]);
+                if !t.exists() {
+                    let _ = fs::rename(&d, &t);
+                }
+            }
+            2 => {
+                let _ = fs::remove_dir_all(&d);
+            }
+            3 => {
+                let _ = fs::rename(&d, outside.join(format!("o{}", rnd(4))));
+            }
+            4 => {
+                let o = outside.join(format!("o{}", rnd(4)));
+                if !d.exists() {
+                    let _ = fs::rename(&o, &d);
+                }
+            }
+            5 => {
+                let _ = fs::write(d.join("g.ts"), "y");
+                let _ = fs::rename(d.join("g.ts"), d.join("h.ts"));
+            }
+            _ => std::thread::sleep(Duration::from_millis(rnd(120))),
+        }
+        ops += 1;
+        while let Ok(_) = rx.try_recv() {
+            batches += 1;
+        }
+    }
+    println!("{}", json!({"ops": ops, "batches": batches}));
+}
